@@ -4,6 +4,7 @@ executes every request list, the user's saves reach the cells. Invariant: the se
 the quiescent check state matching the cells' tags, and the game on the replay of its timeline.
 -/
 import GgrsModel.Proofs.Consistent
+import GgrsModel.Proofs.ConsistentSp
 import GgrsModel.Proofs.Session
 
 namespace Ggrs
@@ -125,86 +126,87 @@ theorem SessInv_sameQueues (s s2 : P2P) (gh : Ghost) (t : TLState) (reqs : List 
   rw [hp, hst]
   exact SyncInv_congr h.tinv.sync hq hc
 
+theorem userExecute_lastSaved (s : P2P) (saves : List (Frame × Option Nat)) :
+    (s.userExecute saves).sync.lastSavedFrame = s.sync.lastSavedFrame := by
+  unfold P2P.userExecute
+  simp only
+  generalize s.sync = sy
+  induction saves generalizing sy with
+  | nil => rfl
+  | cons a as ih => simp only [List.foldl_cons]; rw [ih]; rfl
+
+/-- The mode-specific part of the check-state invariant: without sparse saving every written cell
+is valid and the ghost tags are the cells' tags; with sparse saving every written cell is valid and
+no tag exceeds `last_saved_frame`. -/
+def ModeInv (s : P2P) (c : CS) : Prop :=
+  (s.sparse = false ∧ QInv s.sync.cells.length c ∧
+    (0 < s.sync.currentFrame → ∀ i, i < s.sync.cells.length → c.tag i = (rget s.sync.cells i).frame)) ∨
+  (s.sparse = true ∧ SQInv s.sync.cells.length c s.sync.lastSavedFrame)
+
 /-- Session, game and check state together. -/
 structure WInv {G : Type} (step : G → List (Input × InputStatus) → G) (g0 : G) (s : P2P) (x : GS G) : Prop where
   sess : ∃ gh, SessInv s gh ⟨x.cur, x.R⟩ []
-  ns : s.sparse = false
   ncells : 0 < s.sync.cells.length
-  chk : ∃ c, QInv s.sync.cells.length c ∧ c.cur = s.sync.currentFrame ∧
-    (∀ i, i < s.sync.cells.length → c.tag i = (rget s.sync.cells i).frame) ∧
-    GInv step g0 s.sync.cells.length x c
+  chk : ∃ c, c.cur = s.sync.currentFrame ∧ GInv step g0 s.sync.cells.length x c ∧
+    (∀ i, i < s.sync.cells.length → c.tag i = (rget s.sync.cells i).frame) ∧ ModeInv s c
 
-/-- **One `advance_frame` call and the game executing its requests.** `pre` is what
-`advance_frame_core` puts in front: nothing, or at frame 0 the initial SaveGameState. -/
-theorem WInv_tick {G : Type} (step : G → List (Input × InputStatus) → G) (g0 : G) (s s' : P2P) (x : GS G)
-    (now : Nat) (pre reqs' : List Request) (saves : List (Frame × Option Nat))
-    (h : WInv step g0 s x) (hpre : pre = [] ∨ (s.sync.currentFrame = 0 ∧ pre = [.save 0]))
+/-- The core of a call: the session `s` on which `advance_rollback_frame` runs has already issued
+`pre` (checked from `c` to `c0`). -/
+theorem WInv_tick_core {G : Type} (step : G → List (Input × InputStatus) → G) (g0 : G) (s s' : P2P) (x : GS G)
+    (now : Nat) (pre reqs' : List Request) (saves : List (Frame × Option Nat)) (gh : Ghost) (c c0 : CS)
+    (hsess : SessInv s gh ⟨x.cur, x.R⟩ pre) (hn : 0 < s.sync.cells.length)
+    (hg : GInv step g0 s.sync.cells.length x c)
+    (htags : ∀ i, i < s.sync.cells.length → c.tag i = (rget s.sync.cells i).frame)
+    (hl0 : ChkList s.sync.cells.length c pre c0) (hcur0 : c0.cur = s.sync.currentFrame) (hmode : ModeInv s c0)
     (hadv : s.advanceRollbackFrame now pre = .ok (s', reqs'))
     (hsaves : saves.map (·.1) = savedFrames reqs') :
     WInv step g0 (s'.userExecute saves) (execGs step s.sync.cells.length x reqs') ∧
-    (∃ c c', QInv s.sync.cells.length c ∧ GInv step g0 s.sync.cells.length x c ∧
-      ChkList s.sync.cells.length c reqs' c' ∧ c'.cur = s'.sync.currentFrame) ∧
+    (∃ c', ChkList s.sync.cells.length c reqs' c' ∧ c'.cur = s'.sync.currentFrame) ∧
     (s'.sync.currentFrame = s.sync.currentFrame ∨ s'.sync.currentFrame = s.sync.currentFrame + 1) := by
-  obtain ⟨gh, hsess⟩ := h.sess
-  obtain ⟨c, hq, hcur, htags, hg⟩ := h.chk
-  have hnpos0 := h.ncells
-  have hns0 := h.ns
-  generalize hn : s.sync.cells.length = n at *
-  have hnpos : 0 < n := hnpos0
-  -- the prefix, checked
-  have hprechk : ∃ c0, ChkList n c pre c0 ∧ QInv n c0 ∧ c0.cur = s.sync.currentFrame ∧
-      (0 < s.sync.currentFrame → ∀ i, i < n → c0.tag i = (rget s.sync.cells i).frame) := by
-    rcases hpre with he | ⟨h0, he⟩
-    · subst he; exact ⟨c, ChkList.nil c, hq, hcur, fun _ => htags⟩
-    · subst he
-      have hc0 : c.cur = 0 := by rw [hcur, h0]
-      have hs := Chk.save (n := n) c c.cur rfl (by rw [hc0]; exact Int.le_refl _)
-      rw [hc0] at hs
-      refine ⟨_, ChkList.cons c _ _ _ _ hs (ChkList.nil _), ?_, by show (0 : Int) = _; rw [h0], fun hp => by omega⟩
-      have := QInv_save n c hq
-      rw [hc0] at this
-      exact this
-  obtain ⟨c0, hl0, hq0, hcur0, htags0⟩ := hprechk
-  -- the session side, with `pre` already issued
-  have hsess0 : SessInv s gh ⟨x.cur, x.R⟩ pre := by
-    rcases hpre with he | ⟨_, he⟩
-    · subst he; exact hsess
-    · subst he
-      exact ⟨⟨hsess.tinv.sync, hsess.tinv.exec, hsess.tinv.rows⟩, hsess.asked, hsess.status, hsess.remote⟩
-  obtain ⟨_, _, _, _, gh', _, _, hsess', hh', hp', _⟩ := advanceRollbackFrame_spec s s' gh ⟨x.cur, x.R⟩ pre reqs' now hsess0 hadv
-  obtain ⟨new, c', hreqs, hlnew, hq', hcur', hstepc, hcl, hsp⟩ :=
-    tick_consistent_ns s s' now pre reqs' hns0 hadv c0 (by rw [hn]; exact hnpos) (by rw [hn]; exact hq0) hcur0
-      (by rw [hn]; exact htags0)
-  rw [hn] at hlnew hq'
+  unfold ModeInv at hmode
+  generalize hnn : s.sync.cells.length = n at *
+  obtain ⟨_, _, _, _, gh', _, _, hsess', hh', hp', _⟩ := advanceRollbackFrame_spec s s' gh ⟨x.cur, x.R⟩ pre reqs' now hsess hadv
+  -- the new requests, checked, in either mode
+  have hnew : ∃ (new : List Request) (c' : CS), reqs' = pre ++ new ∧ ChkList n c0 new c' ∧ c'.cur = s'.sync.currentFrame ∧
+      (s'.sync.currentFrame = s.sync.currentFrame ∨ s'.sync.currentFrame = s.sync.currentFrame + 1) ∧
+      s'.sync.cells = s.sync.cells ∧ s'.sparse = s.sparse ∧
+      ((s.sparse = false ∧ QInv n c') ∨ (s.sparse = true ∧ SQInv n c' s'.sync.lastSavedFrame)) := by
+    rcases hmode with ⟨hns, hq, ht⟩ | ⟨hsp, hq⟩
+    · obtain ⟨new, c', a, b, d, e, f, g, k⟩ := tick_consistent_ns s s' now pre reqs' hns hadv c0 (by rw [hnn]; exact hn)
+        (by rw [hnn]; exact hq) hcur0 (by rw [hnn]; exact ht)
+      rw [hnn] at b d
+      exact ⟨new, c', a, b, e, f, g, k, Or.inl ⟨hns, d⟩⟩
+    · obtain ⟨new, c', a, b, d, e, f, g, k⟩ := tick_consistent_sp s s' now pre reqs' hsp hadv c0 n hn hq hcur0
+      exact ⟨new, c', a, b, e, f, g, k, Or.inr ⟨hsp, d⟩⟩
+  obtain ⟨new, c', hreqs, hlnew, hcur', hstepc, hcl, hspp, hmode'⟩ := hnew
   have hlall : ChkList n c reqs' c' := by rw [hreqs]; exact ChkList_append n c c0 c' _ _ hl0 hlnew
-  have hg' := GInv_execs step g0 n hnpos x c c' reqs' hg hlall
+  have hg' := GInv_execs step g0 n hn x c c' reqs' hg hlall
   obtain ⟨ecur, eR⟩ := execGs_cur_R step n x reqs'
   obtain ⟨uq, uc, ul, up, ust, uh, usp⟩ := userExecute_fields s' saves
-  have hlen' : s'.sync.cells.length = n := by rw [hcl]; exact hn
-  refine ⟨⟨⟨gh', ?_⟩, by rw [usp, hsp]; exact hns0, by rw [ul, hlen']; exact hnpos, ⟨c', ?_, ?_, ?_, ?_⟩⟩,
-    ⟨c, c', hq, hg, hlall, hcur'⟩, hstepc⟩
+  have hlen' : s'.sync.cells.length = n := by rw [hcl]; exact hnn
+  have htags' : ∀ i, i < n → c'.tag i = (rget (s'.userExecute saves).sync.cells i).frame := by
+    intro i hi
+    rw [chk_tags n c c' reqs' hlall]
+    unfold P2P.userExecute
+    exact userExecute_tags n hn reqs' saves s'.sync c.tag hlen' (by rw [hcl]; exact htags) hsaves
+      (chk_saved_nonneg n c c' reqs' hlall) i hi
+  have huls : (s'.userExecute saves).sync.lastSavedFrame = s'.sync.lastSavedFrame := userExecute_lastSaved s' saves
+  refine ⟨⟨⟨gh', ?_⟩, by rw [ul, hlen']; exact hn, ⟨c', by rw [uc]; exact hcur', by rw [ul, hlen']; exact hg',
+    by rw [ul, hlen']; exact htags', ?_⟩⟩, ⟨c', hlall, hcur'⟩, hstepc⟩
   · have hreb := SessInv_rebase s' gh' ⟨x.cur, x.R⟩ reqs' hsess'
     have ht : (⟨(execGs step n x reqs').cur, (execGs step n x reqs').R⟩ : TLState) = execReqs ⟨x.cur, x.R⟩ reqs' := by
       rw [ecur, eR]
     rw [ht]
     exact SessInv_sameQueues s' _ gh' _ [] hreb uq uc up ust uh
-  · rw [ul, hlen']; exact hq'
-  · rw [uc]; exact hcur'
-  · rw [ul, hlen']
-    intro i hi
-    rw [chk_tags n c c' reqs' hlall]
-    unfold P2P.userExecute
-    exact userExecute_tags n hnpos reqs' saves s'.sync c.tag hlen' (by rw [hcl]; exact htags) hsaves
-      (chk_saved_nonneg n c c' reqs' hlall) i hi
-  · rw [ul, hlen']; exact hg'
-
-end Ggrs
-
-namespace Ggrs
+  · unfold ModeInv
+    rw [usp, hspp, ul, hlen', huls]
+    rcases hmode' with ⟨a, b⟩ | ⟨a, b⟩
+    · exact Or.inl ⟨a, b, fun _ => htags'⟩
+    · exact Or.inr ⟨a, b⟩
 
 theorem remoteInput_cells (s s' : P2P) (now : Nat) (inp : PlayerInput) (player : Nat) (handles : List Nat) (addr : Nat)
     (hev : s.handleEventCore now (.input inp player) handles addr = .ok s') :
-    s'.sync.cells = s.sync.cells ∧ s'.sparse = s.sparse := by
+    s'.sync.cells = s.sync.cells ∧ s'.sparse = s.sparse ∧ s'.sync.lastSavedFrame = s.sync.lastSavedFrame := by
   unfold P2P.handleEventCore at hev
   simp only at hev
   obtain ⟨_, hev⟩ := ensure_bind_ok hev
@@ -218,25 +220,91 @@ theorem remoteInput_cells (s s' : P2P) (now : Nat) (inp : PlayerInput) (player :
     obtain ⟨r, _, hadd⟩ := bind_ok hadd
     have := pure_ok hadd
     subst this
-    exact ⟨rfl, rfl⟩
+    exact ⟨rfl, rfl, rfl⟩
   · have := pure_ok hev
     subst this
-    exact ⟨rfl, rfl⟩
+    exact ⟨rfl, rfl, rfl⟩
 
 /-- Steps of the world: a remote input arrives, or `advance_frame` runs and the game executes the
-returned requests (its saves reaching the cells). -/
+returned requests (its saves reaching the cells). `tick0` is the very first call, where
+`advance_frame_core` saves frame 0 before anything else. -/
 inductive WStep {G : Type} (step : G → List (Input × InputStatus) → G) : (P2P × GS G) → (P2P × GS G) → Prop
   | remoteInput (s s' : P2P) (x : GS G) (now : Nat) (inp : PlayerInput) (player : Nat) (handles : List Nat)
       (addr : Nat) : player ∉ s.localPlayerHandles → 0 ≤ inp.frame →
       s.handleEventCore now (.input inp player) handles addr = .ok s' → WStep step (s, x) (s', x)
-  | tick (s s' : P2P) (x : GS G) (now : Nat) (pre reqs' : List Request) (saves : List (Frame × Option Nat)) :
-      (pre = [] ∨ (s.sync.currentFrame = 0 ∧ pre = [.save 0])) →
-      s.advanceRollbackFrame now pre = .ok (s', reqs') → saves.map (·.1) = savedFrames reqs' →
+  | tick (s s' : P2P) (x : GS G) (now : Nat) (reqs' : List Request) (saves : List (Frame × Option Nat)) :
+      s.advanceRollbackFrame now [] = .ok (s', reqs') → saves.map (·.1) = savedFrames reqs' →
+      WStep step (s, x) (s'.userExecute saves, execGs step s.sync.cells.length x reqs')
+  | tick0 (s s' : P2P) (x : GS G) (now : Nat) (sy : SyncLayer) (r : Request) (reqs' : List Request)
+      (saves : List (Frame × Option Nat)) :
+      s.sync.currentFrame = 0 → s.sync.saveCurrentState = .ok (sy, r) →
+      ({ s with sync := sy } : P2P).advanceRollbackFrame now [r] = .ok (s', reqs') →
+      saves.map (·.1) = savedFrames reqs' →
       WStep step (s, x) (s'.userExecute saves, execGs step s.sync.cells.length x reqs')
 
 inductive WStar {G : Type} (step : G → List (Input × InputStatus) → G) : (P2P × GS G) → (P2P × GS G) → Prop
   | refl (w) : WStar step w w
   | step (a b c) : WStar step a b → WStep step b c → WStar step a c
+
+/-- What a call guarantees about its request list. -/
+def TickOK {G : Type} (step : G → List (Input × InputStatus) → G) (g0 : G) (s : P2P) (x : GS G) (s' : P2P)
+    (reqs' : List Request) : Prop :=
+  (∃ c c', GInv step g0 s.sync.cells.length x c ∧ ChkList s.sync.cells.length c reqs' c' ∧ c'.cur = s'.sync.currentFrame) ∧
+  (s'.sync.currentFrame = s.sync.currentFrame ∨ s'.sync.currentFrame = s.sync.currentFrame + 1)
+
+theorem WInv_tick {G : Type} (step : G → List (Input × InputStatus) → G) (g0 : G) (s s' : P2P) (x : GS G)
+    (now : Nat) (reqs' : List Request) (saves : List (Frame × Option Nat)) (h : WInv step g0 s x)
+    (hadv : s.advanceRollbackFrame now [] = .ok (s', reqs')) (hsaves : saves.map (·.1) = savedFrames reqs') :
+    WInv step g0 (s'.userExecute saves) (execGs step s.sync.cells.length x reqs') ∧ TickOK step g0 s x s' reqs' := by
+  obtain ⟨gh, hsess⟩ := h.sess
+  obtain ⟨c, hcur, hg, htags, hmode⟩ := h.chk
+  obtain ⟨a, ⟨c', b1, b2⟩, d⟩ := WInv_tick_core step g0 s s' x now [] reqs' saves gh c c hsess h.ncells hg htags
+    (ChkList.nil c) hcur hmode hadv hsaves
+  exact ⟨a, ⟨c, c', hg, b1, b2⟩, d⟩
+
+theorem WInv_tick0 {G : Type} (step : G → List (Input × InputStatus) → G) (g0 : G) (s s' : P2P) (x : GS G)
+    (now : Nat) (sy : SyncLayer) (r : Request) (reqs' : List Request) (saves : List (Frame × Option Nat))
+    (h : WInv step g0 s x) (h0 : s.sync.currentFrame = 0) (hsv : s.sync.saveCurrentState = .ok (sy, r))
+    (hadv : ({ s with sync := sy } : P2P).advanceRollbackFrame now [r] = .ok (s', reqs'))
+    (hsaves : saves.map (·.1) = savedFrames reqs') :
+    WInv step g0 (s'.userExecute saves) (execGs step s.sync.cells.length x reqs') ∧ TickOK step g0 s x s' reqs' := by
+  obtain ⟨gh, hsess⟩ := h.sess
+  obtain ⟨c, hcur, hg, htags, hmode⟩ := h.chk
+  obtain ⟨hq, hc, hr, hls, _, hcl, _⟩ := save_fields _ _ _ hsv
+  have hc0 : c.cur = 0 := by rw [hcur, h0]
+  -- the session after the save, with the save issued
+  have hsess1 : SessInv ({ s with sync := sy } : P2P) gh ⟨x.cur, x.R⟩ [r] := by
+    have h1 := SessInv_sameQueues s ({ s with sync := sy } : P2P) gh _ [] hsess hq hc rfl rfl rfl
+    rw [hr]
+    exact ⟨⟨h1.tinv.sync, h1.tinv.exec, h1.tinv.rows⟩, h1.asked, h1.status, h1.remote⟩
+  have hn := h.ncells
+  unfold ModeInv at hmode
+  unfold TickOK
+  generalize hnn : s.sync.cells.length = n at *
+  have hs := Chk.save (n := n) c c.cur rfl (by rw [hc0]; exact Int.le_refl _)
+  have hl0 : ChkList n c [r]
+      { c with tag := upd c.tag (c.cur.toNat % n) c.cur, valid := fun i => i = c.cur.toNat % n ∨ c.valid i } := by
+    rw [hr, h0, ← hc0]
+    exact ChkList.cons c _ _ _ _ hs (ChkList.nil _)
+  have hmode1 : ModeInv ({ s with sync := sy } : P2P)
+      { c with tag := upd c.tag (c.cur.toNat % n) c.cur, valid := fun i => i = c.cur.toNat % n ∨ c.valid i } := by
+    unfold ModeInv
+    show (s.sparse = false ∧ QInv sy.cells.length _ ∧ (0 < sy.currentFrame → _)) ∨ (s.sparse = true ∧ SQInv sy.cells.length _ sy.lastSavedFrame)
+    rw [hcl, hnn, hc, hls]
+    rcases hmode with ⟨a, b, _⟩ | ⟨a, b⟩
+    · exact Or.inl ⟨a, QInv_save n c b, fun hp => by omega⟩
+    · have := SQInv_save n hn c _ b
+      rw [hcur] at this ⊢
+      exact Or.inr ⟨a, this⟩
+  have hlen1 : ({ s with sync := sy } : P2P).sync.cells.length = n := by show sy.cells.length = n; rw [hcl]; exact hnn
+  obtain ⟨a, ⟨c', b1, b2⟩, d⟩ := WInv_tick_core step g0 ({ s with sync := sy } : P2P) s' x now [r] reqs' saves gh c _
+    hsess1 (by rw [hlen1]; exact hn) (by rw [hlen1]; exact hg) (by rw [hlen1]; show ∀ i, i < n → c.tag i = (rget sy.cells i).frame; rw [hcl]; exact htags)
+    (by rw [hlen1]; exact hl0) (by show c.cur = sy.currentFrame; rw [hc]; exact hcur) hmode1 hadv hsaves
+  rw [hlen1] at a b1
+  refine ⟨a, ⟨c, c', hg, b1, b2⟩, ?_⟩
+  have : ({ s with sync := sy } : P2P).sync.currentFrame = s.sync.currentFrame := hc
+  rw [this] at d
+  exact d
 
 theorem WInv_step {G : Type} (step : G → List (Input × InputStatus) → G) (g0 : G) (a b : P2P × GS G)
     (h : WInv step g0 a.1 a.2) (hs : WStep step a b) : WInv step g0 b.1 b.2 := by
@@ -244,16 +312,19 @@ theorem WInv_step {G : Type} (step : G → List (Input × InputStatus) → G) (g
   | remoteInput s s' x now inp player handles addr hnl h0 hev =>
     obtain ⟨gh, hsess⟩ := h.sess
     obtain ⟨gh', hsess', _, hcur, _⟩ := remoteInput_spec s s' gh ⟨x.cur, x.R⟩ [] now inp player handles addr hsess hnl h0 hev
-    obtain ⟨hcl, hsp⟩ := remoteInput_cells s s' now inp player handles addr hev
-    obtain ⟨c, hq, hc, htags, hg⟩ := h.chk
-    refine ⟨⟨gh', hsess'⟩, by show s'.sparse = false; rw [hsp]; exact h.ns,
-      by show 0 < s'.sync.cells.length; rw [hcl]; exact h.ncells, ⟨c, ?_, ?_, ?_, ?_⟩⟩
-    · show QInv s'.sync.cells.length c; rw [hcl]; exact hq
+    obtain ⟨hcl, hsp, hls⟩ := remoteInput_cells s s' now inp player handles addr hev
+    obtain ⟨c, hc, hg, htags, hmode⟩ := h.chk
+    refine ⟨⟨gh', hsess'⟩, by show 0 < s'.sync.cells.length; rw [hcl]; exact h.ncells, ⟨c, ?_, ?_, ?_, ?_⟩⟩
     · show c.cur = s'.sync.currentFrame; rw [hcur]; exact hc
-    · show ∀ i, i < s'.sync.cells.length → _; rw [hcl]; exact htags
     · show GInv step g0 s'.sync.cells.length x c; rw [hcl]; exact hg
-  | tick s s' x now pre reqs' saves hpre hadv hsaves =>
-    exact (WInv_tick step g0 s s' x now pre reqs' saves h hpre hadv hsaves).1
+    · show ∀ i, i < s'.sync.cells.length → _; rw [hcl]; exact htags
+    · unfold ModeInv
+      show (s'.sparse = false ∧ QInv s'.sync.cells.length c ∧ (0 < s'.sync.currentFrame → _)) ∨ _
+      rw [hcl, hsp, hcur, hls]
+      exact hmode
+  | tick s s' x now reqs' saves hadv hsaves => exact (WInv_tick step g0 s s' x now reqs' saves h hadv hsaves).1
+  | tick0 s s' x now sy r reqs' saves h0 hsv hadv hsaves =>
+    exact (WInv_tick0 step g0 s s' x now sy r reqs' saves h h0 hsv hadv hsaves).1
 
 /-- **L-world.** -/
 theorem WInv_run {G : Type} (step : G → List (Input × InputStatus) → G) (g0 : G) (a b : P2P × GS G)
@@ -262,21 +333,29 @@ theorem WInv_run {G : Type} (step : G → List (Input × InputStatus) → G) (g0
   | refl => exact h
   | step b c _ hs ih => exact WInv_step step g0 b c ih hs
 
-/-- A freshly built session with a game at its initial state and empty cells. -/
+/-- A freshly built session with a game at its initial state and empty cells, sparse saving or
+not. -/
 theorem WInv_init {G : Type} (step : G → List (Input × InputStatus) → G) (g0 : G) (s : P2P)
     (R : Nat → List (Input × InputStatus)) (cellG : Nat → G) (n : Nat)
     (hq : s.sync.queues = List.replicate n InputQueue.new) (hst : s.localConnectStatus = List.replicate n {})
-    (hc : s.sync.currentFrame = 0) (hns : s.sparse = false)
+    (hc : s.sync.currentFrame = 0) (hls : s.sync.lastSavedFrame = NULL_FRAME)
     (hcells : s.sync.cells = List.replicate (s.maxPrediction + 1) {}) :
     WInv step g0 s ⟨0, R, g0, cellG, fun _ => NULL_FRAME⟩ := by
   have hlen : s.sync.cells.length = s.maxPrediction + 1 := by rw [hcells]; simp
-  refine ⟨⟨_, SessInv_init s R n hq hst hc⟩, hns, by rw [hlen]; omega, ⟨⟨0, fun _ => NULL_FRAME, fun _ => False⟩, ?_, ?_, ?_, ?_⟩⟩
-  · exact ⟨Int.le_refl _, fun i _ h0 => by simp [NULL_FRAME] at h0⟩
-  · exact hc.symm
-  · intro i hi
+  have htags : ∀ i, i < s.sync.cells.length → (fun _ : Nat => NULL_FRAME) i = (rget s.sync.cells i).frame := by
+    intro i hi
     rw [hcells]
     rw [hlen] at hi
-    simp [rget, List.getD_eq_getElem?_getD, List.getElem?_replicate, hi, NULL_FRAME]
+    simp [rget, List.getD_eq_getElem?_getD, hi, NULL_FRAME]
+  refine ⟨⟨_, SessInv_init s R n hq hst hc⟩, by rw [hlen]; omega,
+    ⟨⟨0, fun _ => NULL_FRAME, fun _ => False⟩, hc.symm, ?_, htags, ?_⟩⟩
   · exact ⟨rfl, Int.le_refl _, fun _ _ => rfl, rfl, fun _ _ hv => absurd hv (fun h => h)⟩
+  · unfold ModeInv
+    cases hsp : s.sparse with
+    | false =>
+      exact Or.inl ⟨rfl, ⟨Int.le_refl _, fun i _ h0 => by simp [NULL_FRAME] at h0⟩, fun _ => htags⟩
+    | true =>
+      refine Or.inr ⟨rfl, ⟨Int.le_refl _, by rw [hls]; simp [NULL_FRAME], fun h0 => by rw [hls] at h0; simp [NULL_FRAME] at h0,
+        fun i _ h0 => by simp [NULL_FRAME] at h0⟩⟩
 
 end Ggrs
